@@ -17,7 +17,7 @@ type hooks struct {
 	allocLimit *Term
 }
 
-var intrinsics map[string]intrinsic
+var intrinsics = map[string]intrinsic{}
 var vpIntrinsics map[string]intrinsic
 
 func init() {
@@ -88,6 +88,26 @@ func init() {
 			}
 			return e.ret(st, Tuple{})
 		},
+		"SparseAlloc": func(e *Engine, st *State, fn *ssa.Function, a []Value, ins ssa.Instruction) []*State {
+			if t, ok := a[0].(*Term); ok {
+				e.sparseAlloc = t == e.tt.True
+			}
+			return e.ret(st, Tuple{})
+		},
+		"Stop": func(e *Engine, st *State, fn *ssa.Function, a []Value, ins ssa.Instruction) []*State {
+			// ends the path (after the assertions made so far); a reachability witness is recorded
+			label := e.mustStr(st, a[0])
+			if !e.Covers[label] {
+				r, vals, _, sname := e.checkSat(st.pc, nil, e.wantTerms())
+				if r == Sat {
+					ob := &Obligation{Kind: "cover", Label: label, Pos: e.pos(ins), Solver: sname, Verdict: "reached"}
+					ob.Model, _ = e.decodeModel(vals)
+					e.Covers[label] = true
+					e.Obligations = append(e.Obligations, ob)
+				}
+			}
+			return nil
+		},
 		"MaxLoop": func(e *Engine, st *State, fn *ssa.Function, a []Value, ins ssa.Instruction) []*State {
 			if t, ok := a[0].(*Term); ok && t.IsConst() {
 				e.maxLoop = int(t.Val)
@@ -153,7 +173,7 @@ func init() {
 		},
 	}
 
-	intrinsics = map[string]intrinsic{
+	base := map[string]intrinsic{
 		"fmt.Errorf":  fmtErrorf,
 		"fmt.Sprintf": fmtSprintf,
 		"fmt.Sprint":  fmtSprint,
@@ -203,6 +223,9 @@ func init() {
 		},
 		"runtime.KeepAlive": nop,
 		"runtime.SetFinalizer": nop,
+	}
+	for k, v := range base {
+		intrinsics[k] = v
 	}
 	for _, n := range []string{"Debugf", "Debug", "Infof", "Info", "Warnf", "Warn", "Warningf", "Warning", "Errorf", "Error", "Printf", "Println", "Tracef", "Trace", "Debugln", "Infoln"} {
 		intrinsics["github.com/sirupsen/logrus."+n] = nop
@@ -833,6 +856,9 @@ func init() {
 		}
 		return e.ret(st, Poison{"reflect.Value.Len of " + describe(rv.v.Val)})
 	}
+	intrinsics["internal/reflectlite.ValueOf"] = intrinsics["reflect.ValueOf"]
+	intrinsics["(internal/reflectlite.Value).Len"] = intrinsics["(reflect.Value).Len"]
+	defer func() { intrinsics["internal/reflectlite.Swapper"] = intrinsics["reflect.Swapper"] }()
 	intrinsics["reflect.Swapper"] = func(e *Engine, st *State, fn *ssa.Function, a []Value, ins ssa.Instruction) []*State {
 		ifc, _ := a[0].(Iface)
 		s, ok := ifc.Val.(Slice)
@@ -974,5 +1000,215 @@ func init() {
 		ln := e.tt.FreshVar("runes", 64)
 		st.assume(e.tt.ULe(ln, s.Len))
 		return e.ret(st, Slice{Obj: o, Off: e.c64(0), Len: ln, Cap: e.c64(n)})
+	}
+}
+
+// sync.Pool: Get = New() (or nil), Put = no-op.
+func init() {
+	intrinsics["(*sync.Pool).Get"] = func(e *Engine, st *State, fn *ssa.Function, a []Value, ins ssa.Instruction) []*State {
+		p, ok := a[0].(Pointer)
+		if !ok || p.Obj == nil {
+			return e.ret(st, Iface{})
+		}
+		stT, _ := fn.Signature.Recv().Type().(*types.Pointer).Elem().Underlying().(*types.Struct)
+		idx := -1
+		for i := 0; stT != nil && i < stT.NumFields(); i++ {
+			if stT.Field(i).Name() == "New" {
+				idx = i
+			}
+		}
+		if idx < 0 {
+			return e.ret(st, Iface{})
+		}
+		nf := e.loadPtr(st, Pointer{Obj: p.Obj, Path: appendPath(p.Path, PathElem{Idx: idx})})
+		if c, ok := nf.(*Closure); !ok || c == nil {
+			return e.ret(st, Iface{})
+		}
+		return e.invoke(st, nf, nil, nil, ins)
+	}
+	intrinsics["(*sync.Pool).Put"] = nop
+	intrinsics["(*sync.WaitGroup).Add"] = nop
+	intrinsics["(*sync.WaitGroup).Done"] = nop
+	intrinsics["(*sync.WaitGroup).Wait"] = nop
+}
+
+// internal/bytealg: assembly routines modelled directly.
+func init() {
+	type seq struct {
+		n   int
+		ln  *Term
+		at  func(i int) *Term
+	}
+	getSeq := func(e *Engine, st *State, v Value) (seq, bool) {
+		switch x := v.(type) {
+		case Slice:
+			if x.Obj == nil {
+				return seq{0, e.c64(0), nil}, true
+			}
+			n := e.sliceCapN(st, x)
+			return seq{n, x.Len, func(i int) *Term {
+				t, ok := e.loadPtr(st, e.sliceElemPtr(x, e.c64(i))).(*Term)
+				if !ok {
+					return e.tt.Const(8, 0)
+				}
+				return t
+			}}, true
+		case Str:
+			n := e.strCap(st, x)
+			return seq{n, e.strLen(x), func(i int) *Term { return e.strByteUnchecked(st, x, e.c64(i)) }}, true
+		}
+		return seq{}, false
+	}
+	indexByte := func(e *Engine, st *State, fn *ssa.Function, a []Value, ins ssa.Instruction) []*State {
+		s, ok := getSeq(e, st, a[0])
+		c, ok2 := a[1].(*Term)
+		if !ok || !ok2 {
+			return e.ret(st, Poison{"bytealg.IndexByte operands"})
+		}
+		res := e.tt.Const(64, ^uint64(0))
+		for i := s.n - 1; i >= 0; i-- {
+			hit := e.tt.BAnd(e.tt.ULt(e.c64(i), s.ln), e.tt.Eq(s.at(i), c))
+			res = e.tt.Ite(hit, e.c64(i), res)
+		}
+		return e.ret(st, res)
+	}
+	intrinsics["internal/bytealg.IndexByteString"] = indexByte
+	intrinsics["internal/bytealg.IndexByte"] = indexByte
+	count := func(e *Engine, st *State, fn *ssa.Function, a []Value, ins ssa.Instruction) []*State {
+		s, ok := getSeq(e, st, a[0])
+		c, ok2 := a[1].(*Term)
+		if !ok || !ok2 {
+			return e.ret(st, Poison{"bytealg.Count operands"})
+		}
+		res := e.c64(0)
+		for i := 0; i < s.n; i++ {
+			hit := e.tt.BAnd(e.tt.ULt(e.c64(i), s.ln), e.tt.Eq(s.at(i), c))
+			res = e.tt.Add(res, e.tt.Ite(hit, e.c64(1), e.c64(0)))
+		}
+		return e.ret(st, res)
+	}
+	intrinsics["internal/bytealg.Count"] = count
+	intrinsics["internal/bytealg.CountString"] = count
+	toStr := func(e *Engine, st *State, v Value) (Str, bool) {
+		switch x := v.(type) {
+		case Str:
+			return x, true
+		case Slice:
+			s, ok := e.bytesToStr(st, x).(Str)
+			return s, ok
+		}
+		return Str{}, false
+	}
+	intrinsics["internal/bytealg.Equal"] = func(e *Engine, st *State, fn *ssa.Function, a []Value, ins ssa.Instruction) []*State {
+		x, ok1 := toStr(e, st, a[0])
+		y, ok2 := toStr(e, st, a[1])
+		if !ok1 || !ok2 {
+			return e.ret(st, Poison{"bytealg.Equal operands"})
+		}
+		return e.ret(st, e.strEq(st, x, y))
+	}
+	cmp := func(e *Engine, st *State, fn *ssa.Function, a []Value, ins ssa.Instruction) []*State {
+		x, ok1 := toStr(e, st, a[0])
+		y, ok2 := toStr(e, st, a[1])
+		if !ok1 || !ok2 {
+			return e.ret(st, Poison{"bytealg.Compare operands"})
+		}
+		lt, gt := e.strLess(st, x, y), e.strLess(st, y, x)
+		return e.ret(st, e.tt.Ite(lt, e.tt.Const(64, ^uint64(0)), e.tt.Ite(gt, e.c64(1), e.c64(0))))
+	}
+	intrinsics["internal/bytealg.Compare"] = cmp
+	intrinsics["internal/bytealg.CompareString"] = cmp
+	index := func(e *Engine, st *State, fn *ssa.Function, a []Value, ins ssa.Instruction) []*State {
+		x, ok1 := toStr(e, st, a[0])
+		y, ok2 := toStr(e, st, a[1])
+		if ok1 && ok2 {
+			cx, c1 := e.strToConcrete(st, x)
+			cy, c2 := e.strToConcrete(st, y)
+			if c1 && c2 {
+				return e.ret(st, e.tt.Const(64, uint64(int64(strings.Index(cx, cy)))))
+			}
+			// symbolic haystack, concrete needle: first position where all needle bytes match
+			if c2 && len(cy) > 0 {
+				n := e.strCap(st, x)
+				ln := e.strLen(x)
+				res := e.tt.Const(64, ^uint64(0))
+				for i := n - len(cy); i >= 0; i-- {
+					hit := e.tt.ULe(e.c64(i+len(cy)), ln)
+					for k := 0; k < len(cy); k++ {
+						hit = e.tt.BAnd(hit, e.tt.Eq(e.strByteUnchecked(st, x, e.c64(i+k)), e.tt.Const(8, uint64(cy[k]))))
+					}
+					res = e.tt.Ite(hit, e.c64(i), res)
+				}
+				return e.ret(st, res)
+			}
+		}
+		return e.ret(st, Poison{"bytealg.Index with symbolic needle"})
+	}
+	intrinsics["internal/bytealg.Index"] = index
+	intrinsics["internal/bytealg.IndexString"] = index
+}
+
+// randomness: arbitrary values, logged as nondeterminism sources.
+func init() {
+	intrinsics["github.com/google/uuid.NewRandom"] = func(e *Engine, st *State, fn *ssa.Function, a []Value, ins ssa.Instruction) []*State {
+		st.nondetLog = append(st.nondetLog[:len(st.nondetLog):len(st.nondetLog)], "uuid.NewRandom @ "+e.pos(ins))
+		e.Nondet = append(e.Nondet, "uuid.NewRandom @ "+e.pos(ins))
+		ag := &Agg{Elems: make([]Value, 16), Epoch: -1}
+		for i := range ag.Elems {
+			ag.Elems[i] = e.tt.FreshVar("uuid.rand", 8)
+		}
+		return e.ret(st, Tuple{ag, Iface{}})
+	}
+	intrinsics["crypto/rand.Read"] = func(e *Engine, st *State, fn *ssa.Function, a []Value, ins ssa.Instruction) []*State {
+		st.nondetLog = append(st.nondetLog[:len(st.nondetLog):len(st.nondetLog)], "crypto/rand.Read @ "+e.pos(ins))
+		e.Nondet = append(e.Nondet, "crypto/rand.Read @ "+e.pos(ins))
+		p, ok := a[0].(Slice)
+		if ok && p.Obj != nil {
+			n := e.sliceCapN(st, p)
+			for i := 0; i < n; i++ {
+				e.storePtr(st, e.sliceElemPtr(p, e.c64(i)), e.tt.FreshVar("rand", 8))
+			}
+			return e.ret(st, Tuple{p.Len, Iface{}})
+		}
+		return e.ret(st, Tuple{e.c64(0), Iface{}})
+	}
+}
+
+// regexp: the "trim trailing spaces" idiom (` +$` replaced by "") on symbolic strings is modelled
+// directly; everything else runs the real regexp engine from SSA.
+func init() {
+	intrinsics["(*regexp.Regexp).ReplaceAllString"] = func(e *Engine, st *State, fn *ssa.Function, a []Value, ins ssa.Instruction) []*State {
+		src, ok1 := a[1].(Str)
+		repl, ok2 := a[2].(Str)
+		re, ok3 := a[0].(Pointer)
+		if !ok1 || !ok2 || !ok3 || re.Obj == nil {
+			return e.callBody(st, fn, a, nil, ins)
+		}
+		if _, conc := e.strToConcrete(st, src); conc {
+			return e.callBody(st, fn, a, nil, ins)
+		}
+		// field 0 of regexp.Regexp is expr string
+		exprV := e.loadPtr(st, Pointer{Obj: re.Obj, Path: appendPath(re.Path, PathElem{Idx: 0})})
+		ex, ok := exprV.(Str)
+		pat, okc := "", false
+		if ok {
+			pat, okc = e.strToConcrete(st, ex)
+		}
+		rp, okr := e.strToConcrete(st, repl)
+		if !okc || !okr || rp != "" || (pat != " +$" && pat != " *$") {
+			return e.callBody(st, fn, a, nil, ins)
+		}
+		e.Models["regexp ` +$` -> \"\" on symbolic strings: trailing-space trim model"] = true
+		n := e.strCap(st, src)
+		ln := e.strLen(src)
+		// new length = 1 + index of the last non-space byte below ln (0 if none)
+		nl := e.c64(0)
+		for i := 0; i < n; i++ {
+			b := e.strByteUnchecked(st, src, e.c64(i))
+			keep := e.tt.BAnd(e.tt.ULt(e.c64(i), ln), e.tt.BNot(e.tt.Eq(b, e.tt.Const(8, ' '))))
+			nl = e.tt.Ite(keep, e.c64(i+1), nl)
+		}
+		so := e.strObj(st, src)
+		return e.ret(st, Str{Obj: so.Obj, Base: so.Base, Off: so.Off, Len: nl})
 	}
 }
